@@ -71,17 +71,33 @@ Fixpoint bruker_props (tbl : list (string * string)) (data : list (string * list
       end
   end.
 
+(* set_map_shape: (ROI rectangular?, map shape, row / column index of every
+   record relative to the ROI when SEM/IY and SEM/IX are present) *)
+Definition bruker_shape_rc (t : btok) : bool * (Z * Z) * option (list Z * list Z) :=
+  match bt_iy t, bt_ix t with
+  | Some iy, Some ix =>
+      let r0 := zmin iy in let c0 := zmin ix in
+      (roi_is_rectangular iy ix,
+       ((zmax iy - r0 + 1)%Z, (zmax ix - c0 + 1)%Z),
+       Some (map (fun r => (r - r0)%Z) iy, map (fun c => (c - c0)%Z) ix))
+  | _, _ => (true, (bt_nrows t, bt_ncols t), None)
+  end.
+
+(* final_preparations: map_order = argsort(ravel_multi_index((rows, cols), shape));
+   None = no index datasets, the file order is taken to be the map order *)
+Definition bruker_order (t : btok) : option (list nat) :=
+  let '(_, shape, rc) := bruker_shape_rc t in
+  match rc with
+  | Some (rows, cols) => Some (argsort (map (fun p => (fst p * snd shape + snd p)%Z) (combine rows cols)))
+  | None => None
+  end.
+
+(* a[map_order] *)
+Definition reorder {A} (d : A) (ord : option (list nat)) (l : list A) : list A :=
+  match ord with Some o => take_idx d l o | None => l end.
+
 Definition parse_bruker (t : btok) : result (xmap (T:=T)) :=
-  (* set_map_shape *)
-  let '(rect, shape, rc) :=
-    match bt_iy t, bt_ix t with
-    | Some iy, Some ix =>
-        let r0 := zmin iy in let c0 := zmin ix in
-        (roi_is_rectangular iy ix,
-         ((zmax iy - r0 + 1)%Z, (zmax ix - c0 + 1)%Z),
-         Some (map (fun r => (r - r0)%Z) iy, map (fun c => (c - c0)%Z) ix))
-    | _, _ => (true, (bt_nrows t, bt_ncols t), None)
-    end in
+  let '(rect, _, _) := bruker_shape_rc t in
   if negb (rect && String.eqb (bt_grid t) "isometric") then Err EValue else
   bind (bruker_props bruker_properties (bt_data t)) (fun props =>
   let getp nm := match aget nm props with Some v => v | None => [] end in
@@ -95,19 +111,12 @@ Definition parse_bruker (t : btok) : result (xmap (T:=T)) :=
   let pid := map (fun p => if (p =? 0)%Z then (-1)%Z else p) (bt_phase t) in
   let e nm := match aget nm (bt_eu t) with Some v => v | None => [] end in
   let eu := map (eu_deg2rad Op) (zip3 (e "phi1") (e "PHI") (e "phi2")) in
-  (* final_preparations *)
-  let '(x1, pid1, eu1, props1) :=
-    match rc with
-    | Some (rows, cols) =>
-        let lin := map (fun p => (fst p * snd shape + snd p)%Z) (combine rows cols) in
-        let ord := argsort lin in
-        (take_idx (o_ofZ Op 0) x ord, take_idx 0%Z pid ord,
-         take_idx (o_ofZ Op 0, o_ofZ Op 0, o_ofZ Op 0) eu ord,
-         map (fun kv => (fst kv, take_idx (o_ofZ Op 0) (snd kv) ord)) props)
-    | None => (x, pid, eu, props)
-    end in
-  Ok (crystal_map Op 1 eu1 (rev x1) y pid1
-        (map (fun kv => (fst kv, (1%nat, snd kv))) props1) bruker_unit pl false))).
+  (* final_preparations: y, x, phase ids, rotations and properties are all put
+     into map order; x is then reversed *)
+  let ord := bruker_order t in
+  let z := o_ofZ Op 0 in
+  Ok (crystal_map Op 1 (reorder (z, z, z) ord eu) (rev (reorder z ord x)) (reorder z ord y) (reorder 0%Z ord pid)
+        (map (fun kv => (fst kv, (1%nat, reorder z ord (snd kv)))) props) bruker_unit pl false))).
 
 (* ---- abstract Bruker file ---- *)
 Record bpoint := mkBPt {
